@@ -14,7 +14,10 @@
 (*   pred   = [k |-> "none"] | [k |-> "traj", g, states] | [k |-> "set", g, occs |-> <<[t, shape, pose]>>] *)
 (*            g = GAP between the initial time step and the first prediction step (first step t0+1+g);    *)
 (*            inside the gap there is no state and no occupancy: the time horizon of a dynamic obstacle   *)
-(*            is {t0} union the prediction's own steps                                                    *)
+(*            is {t0} union the prediction's own steps AFTER t0.  g may be NEGATIVE: the prediction then  *)
+(*            overlaps the initial time step or starts before it (an older prediction re-attached after  *)
+(*            update_initial_state); the statement's rule decides: initial state at the initial time     *)
+(*            step, None before it, prediction only afterwards                                            *)
 (*   obstacle o = [id, role, type, t0, shape, init, pred]  (phantom: id, role, type, t0, pred)            *)
 (*            role in {"static", "dynamic", "phantom", "environment"}                                     *)
 (*   a trajectory prediction may carry its own shape (pred.shape, after `prediction.shape = ...`)        *)
@@ -81,7 +84,8 @@ InGap(o, t)    == o.t0 < t /\ t < FirstPredT(o)
 InHorizon(o, t) ==     \* {t0} (a phantom has no initial state) union the prediction's own steps; the gap is outside
     \/ Timeless(o)
     \/ (o.role = "dynamic" /\ t = o.t0)
-    \/ (PredLen(o) > 0 /\ FirstPredT(o) <= t /\ t <= LastT(o))
+    \/ (PredLen(o) > 0 /\ FirstPredT(o) <= t /\ t <= LastT(o) /\ (o.role = "phantom" \/ t > o.t0))
+Overlaps(o) == o.role = "dynamic" /\ PredLen(o) > 0 /\ FirstPredT(o) <= o.t0
 
 SrcState(o, t) ==      \* the state the occupancy at t is derived from (NoneV for stored / timeless occupancies)
     LET s == Source(o, t)
@@ -101,7 +105,10 @@ Occ(o, t) ==           \* expected occupancy for exact states
 AllStates(o) == IF o.role \in {"static", "dynamic"} THEN {o.init} \cup Range(TrajStates(o)) ELSE {}
 StateAt(o, t) ==       \* static: the initial state at all times; dynamic: the state whose time step is t
     CASE o.role = "static"  -> o.init
-      [] o.role = "dynamic" -> (LET c == {s \in AllStates(o) : s.t = t} IN IF c = {} THEN NoneV ELSE CHOOSE s \in c : TRUE)
+      [] o.role = "dynamic" -> IF t = o.init.t THEN o.init                      \* initial state at the initial time step,
+                               ELSE IF t < o.init.t THEN NoneV                  \* nothing before it,
+                               ELSE (LET c == {s \in Range(TrajStates(o)) : s.t = t}  \* trajectory state afterwards
+                                     IN IF c = {} THEN NoneV ELSE CHOOSE s \in c : TRUE)
       [] OTHER -> NoneV
 
 (* ---- uncertain states: obligation poses <<x2, y2, o8>> (doubled position, orientation in EIGHTH turns) *)
